@@ -24,6 +24,7 @@ type Hub struct {
 	history   *ring.Ring
 	listeners map[Listener]struct{} // listeners interested in new messages
 	opChan    chan func(h *Hub)     // operations queued for this actor
+	done      chan struct{}         // closed once the hub has shut down
 }
 
 // New constructs a new Hub which will cache historyLen messages in memory for playback to future
@@ -34,6 +35,7 @@ func New(historyLen int, extHost *extension.Host) *Hub {
 		history:   ring.New(historyLen),
 		listeners: make(map[Listener]struct{}),
 		opChan:    make(chan func(h *Hub), opChanLen),
+		done:      make(chan struct{}),
 	}
 
 	// Register an extension event listener for MessageStored.
@@ -55,8 +57,9 @@ func (hub *Hub) Start(ctx context.Context) {
 	for {
 		select {
 		case <-ctx.Done():
-			// Shutdown
-			close(hub.opChan)
+			// Shutdown.  The queue stays open: late events (ex: from an SMTP session that is
+			// still draining) are discarded by enqueue instead of panicking their sender.
+			close(hub.done)
 			return
 		case op := <-hub.opChan:
 			hub.runOp(op)
@@ -67,7 +70,7 @@ func (hub *Hub) Start(ctx context.Context) {
 // Dispatch queues a message for broadcast by the hub.  The message will be placed into the
 // history buffer and then relayed to all registered listeners.
 func (hub *Hub) Dispatch(msg event.MessageMetadata) {
-	hub.opChan <- func(h *Hub) {
+	hub.enqueue(func(h *Hub) {
 		if h.history != nil {
 			// Add to history buffer
 			h.history.Value = msg
@@ -80,12 +83,12 @@ func (hub *Hub) Dispatch(msg event.MessageMetadata) {
 				}
 			}
 		}
-	}
+	})
 }
 
 // Delete removes the message from the history buffer and instructs listeners to do the same.
 func (hub *Hub) Delete(mailbox string, id string) {
-	hub.opChan <- func(h *Hub) {
+	hub.enqueue(func(h *Hub) {
 		if h.history == nil {
 			return
 		}
@@ -111,12 +114,12 @@ func (hub *Hub) Delete(mailbox string, id string) {
 				delete(h.listeners, l)
 			}
 		}
-	}
+	})
 }
 
 // AddListener registers a listener to receive broadcasted messages.
 func (hub *Hub) AddListener(l Listener) {
-	hub.opChan <- func(h *Hub) {
+	hub.enqueue(func(h *Hub) {
 		// Playback log
 		h.history.Do(func(v interface{}) {
 			if v != nil {
@@ -126,24 +129,35 @@ func (hub *Hub) AddListener(l Listener) {
 
 		// Add to listeners
 		h.listeners[l] = struct{}{}
-	}
+	})
 }
 
 // RemoveListener deletes a listener registration, it will cease to receive messages.
 func (hub *Hub) RemoveListener(l Listener) {
-	hub.opChan <- func(h *Hub) {
+	hub.enqueue(func(h *Hub) {
 		delete(h.listeners, l)
-	}
+	})
 }
 
 // Sync blocks until the msghub has processed its queue up to this point, useful
 // for unit tests.
 func (hub *Hub) Sync() {
 	done := make(chan struct{})
-	hub.opChan <- func(_ *Hub) {
+	hub.enqueue(func(_ *Hub) {
 		close(done)
+	})
+	select {
+	case <-done:
+	case <-hub.done:
 	}
-	<-done
+}
+
+// enqueue queues an operation for the hub goroutine, or discards it if the hub has shut down.
+func (hub *Hub) enqueue(op func(h *Hub)) {
+	select {
+	case hub.opChan <- op:
+	case <-hub.done:
+	}
 }
 
 func (hub *Hub) runOp(op func(*Hub)) {
